@@ -1338,12 +1338,13 @@ fn main() {
             Some(c) => format!("{}-{}", tag, c),
             None => tag.to_string(),
         };
-        emit(&mut sink, &t, &o, &format!("{}: {}", tag, o.req), args.only);
+        let short: String = o.req.chars().take(400).collect();
+        emit(&mut sink, &t, &o, &format!("{}: {}…", tag, short), args.only);
     }
     sink.note("grid_streamer_branches", &format!("{:?}", grid_branches));
 
     // ---- generated histories -------------------------------------------------------------------
-    let n = args.extra.get("n").and_then(|x| x.parse().ok()).unwrap_or(if args.thorough() { 12_000 } else { 900 });
+    let n = args.extra.get("n").and_then(|x| x.parse().ok()).unwrap_or(if args.thorough() { 9_000 } else { 900 });
     let mut letters: BTreeMap<char, u64> = BTreeMap::new();
     let (mut s1, mut s2, mut tainted) = (0u64, 0u64, 0u64);
     let mut branches = [0u64; 5];
@@ -1386,7 +1387,8 @@ fn main() {
             Some(t) => format!("{}-{}", mode, t),
             None => format!("{}-good", mode),
         };
-        emit(&mut sink, &tag, &o, &format!("history {} (seed {}): {}", i, args.seed, o.req), args.only);
+        let short: String = o.req.chars().take(400).collect();
+        emit(&mut sink, &tag, &o, &format!("history {} (seed {}, tier {}; replay with --only <idx>): {}…", i, args.seed, args.tier, short), args.only);
     }
     sink.note("import_class_letters", &format!("{:?}", letters));
     sink.note(
